@@ -213,6 +213,12 @@ def random_slice(rng, docs):
     r = rng.random()
     if r < 0.08:
         return Slice.empty
+    if r < 0.11:
+        # a slice of size 0 that is not the empty slice: an empty node open on both sides
+        types = [t for t in d.type.schema.nodes.values() if not t.is_leaf and not t.is_text and not t.has_required_attrs()]
+        if types:
+            t = rng.choice(types)
+            return Slice(Fragment.from_(Node(t, gen_attrs(rng, t), Fragment.empty, [])), 1, 1)
     f, t = random_range(rng, d)
     try:
         s = d.slice(f, t)
